@@ -25,7 +25,7 @@
    points of pathManager.run and hls.Server.run and the number of muxers that hold their mutex inside
    pathManager.AddReader, from goroutine dumps. *)
 From Coq Require Import List ZArith Bool Arith.
-Require Export MTX.Model.C40_Rendezvous MTX.Model.C40_CoreLoop MTX.Model.C40_StreamLock MTX.Model.C40_HlsLoop.
+Require Export MTX.Model.C40_Rendezvous MTX.Model.C40_CoreLoop MTX.Model.C40_StreamLock MTX.Model.C40_HlsLoop MTX.Model.C40_HlsMux.
 Import ListNotations.
 
 Inductive pmo := OPmIdle | OPmHandle | OPmAnswer | OPmWait | OPmBusy | OPmGone.
@@ -89,7 +89,17 @@ Inductive hfroz := FPm | FHs.
 Inductive hlab := HDo (l : HL.label) | HDrain.
 Inductive hseg := HSeg (ls : list hlab) (frozen : list hfroz) (o : hobs) (settled watchdog : bool).
 
+(* ---- HLS muxer level (Model/C40_HlsMux.v) ---- *)
+(* MDo l: one step of the model; MDrain: every goroutine runs until nothing can move.  Observation, made by the driver
+   with deadlines: is the muxer still in the server's table (answer of the API listing, or the last known answer when the
+   listing did not return), could the driver take and release the muxer's mutex (TryLock), how many of the calls it
+   made (API listing / get, Server.Close) have not returned *)
+Inductive mlab := MDo (l : HM.label) | MDrain.
+Record mobs := mkMObs { mo_present : bool; mo_free : bool; mo_pending : nat }.
+Inductive mseg := MSeg (ls : list mlab) (o : mobs) (watchdog : bool).
+
 Inductive case :=
+| MuxForced (segs : list mseg)
 | Forced (segs : list seg)
 | Soak (evs : list sev)
 | CoreForced (segs : list kseg)
@@ -424,8 +434,40 @@ Fixpoint hcheck_segs (s : HL.state) (segs : list hseg) : bool :=
       end
   end.
 
+(* ---- HLS muxer level ---- *)
+Fixpoint mfirst (s : HM.state) (ls : list HM.label) : option HM.state :=
+  match ls with
+  | [] => None
+  | l :: t => match HM.step HM.Code s l with Some s' => Some s' | None => mfirst s t end
+  end.
+Fixpoint mdrain (fuel : nat) (s : HM.state) : HM.state :=
+  match fuel with
+  | 0 => s
+  | S f => match mfirst s (HM.candidates s) with Some s' => mdrain f s' | None => s end
+  end.
+Definition mlab_step (s : HM.state) (l : mlab) : option HM.state :=
+  match l with MDo x => HM.step HM.Code s x | MDrain => Some (mdrain (HM.measure s) s) end.
+Fixpoint mrun (s : HM.state) (ls : list mlab) : option HM.state :=
+  match ls with
+  | [] => Some s
+  | l :: t => match mlab_step s l with Some s' => mrun s' t | None => None end
+  end.
+Definition mobs_matches (s : HM.state) (o : mobs) : bool :=
+  Bool.eqb (negb (HM.gone s)) (mo_present o) && Bool.eqb (HM.wfree s) (mo_free o)
+  && Nat.eqb (length (filter (fun c => match HM.c_code c with [] => false | _ => true end) (HM.cls s))) (mo_pending o).
+Fixpoint mcheck_segs (s : HM.state) (segs : list mseg) : bool :=
+  match segs with
+  | [] => true
+  | MSeg ls o _ :: r =>
+      match mrun s ls with
+      | Some s' => mobs_matches s' o && HM.quiescentb s' && mcheck_segs s' r
+      | None => false
+      end
+  end.
+
 Definition mismatch (c : case) : bool :=
   match c with
+  | MuxForced segs => negb (mcheck_segs HM.init segs)
   | HlsForced segs => negb (hcheck_segs HL.init segs)
   | Forced segs => negb (check_segs init segs)
   | Soak evs => early_terminated [] evs
@@ -495,8 +537,20 @@ Fixpoint hspec_segs (segs : list hseg) : bool :=
   | HSeg _ _ _ _ wd :: r => wd || hspec_segs r
   end.
 
+(* HLS muxer level, on the observations alone: every observation is made after the driver has waited for the
+   goroutines to come to rest: no call is pending, the muxer's mutex can be taken, nothing timed out; after
+   Server.Close() (last segment) the muxer is gone *)
+Fixpoint mspec_segs (segs : list mseg) : bool :=
+  match segs with
+  | [] => true
+  | MSeg _ o wd :: r =>
+      wd || negb (mo_free o) || negb (Nat.eqb (mo_pending o) 0)
+      || match r with [] => mo_present o | _ => mspec_segs r end
+  end.
+
 Definition spec_fail (c : case) : bool :=
   match c with
+  | MuxForced segs => mspec_segs segs
   | HlsForced segs => hspec_segs segs
   | Forced segs =>
       existsb (fun g => match g with Seg _ _ _ _ stuck => stuck end) segs
